@@ -25,11 +25,17 @@ class Sym:
     (`Sym("a", 2)`) or from a python function producing the body for given index terms
     (`Sym.of(2, lambda i, j: ...)`), which keeps generated terms beta-reduced."""
 
-    def __init__(self, lean: str, rank: int = 0, kind: str = "rat", fn=None):
+    def __init__(self, lean: str, rank: int = 0, kind: str = "rat", fn=None, alias: bool = True):
         self._lean = lean
         self.rank = rank
         self.kind = kind
         self.fn = fn
+        # may this value share memory with another array (name, attribute, einsum/slice view)?
+        # In-place operators are only translated functionally for values known to be fresh.
+        self.alias = alias
+
+    def fresh(self) -> "Sym":
+        return Sym(self._lean, self.rank, self.kind, self.fn, alias=False)
 
     @staticmethod
     def of(rank: int, fn, kind: str = "rat") -> "Sym":
@@ -244,7 +250,7 @@ class SymEx:
         if l.rank and r.rank and l.rank != r.rank:
             self.fail(node, "broadcast between different ranks")
         rank = max(l.rank, r.rank)
-        return Sym.of(rank, lambda *ix: f"({self.bapp(l, ix)} {op} {self.bapp(r, ix)})")
+        return Sym.of(rank, lambda *ix: f"({self.bapp(l, ix)} {op} {self.bapp(r, ix)})").fresh()
 
     def call(self, node: ast.Call):
         fn = ast.unparse(node.func)
@@ -263,7 +269,7 @@ class SymEx:
             x = self.need_sym(node.args[0])
             if x.rank != 2 or len(node.args) != 1 or node.keywords:
                 self.fail(node, "np.triu form")
-            return Sym.of(2, lambda i, j: f"(if {i} ≤ {j} then {x.app(i, j)} else 0)")
+            return Sym.of(2, lambda i, j: f"(if {i} ≤ {j} then {x.app(i, j)} else 0)").fresh()
         if fn == "np.sqrt":
             x = self.need_sym(node.args[0])
             return Sym.of(x.rank, lambda *ix: f"(sqrtF {x.app(*ix)})")
@@ -319,7 +325,8 @@ class SymEx:
             for c in reversed(summed):
                 body = f"(sumTo {self.size} fun {nm[c]} => {body})"
             return body
-        return Sym.of(len(free), mk)
+        res = Sym.of(len(free), mk)
+        return res.fresh() if len(ops) > 1 else res
 
     def subscript(self, node: ast.Subscript):
         base = self.ev(node.value)
@@ -393,6 +400,8 @@ class SymEx:
                         return
             if isinstance(t, ast.Name) and type(st.op) in BINOPS:
                 cur = self.env.get(t.id)
+                if isinstance(cur, Sym) and cur.rank > 0 and cur.alias:
+                    self.fail(st, "in-place operator on an array that may alias another array (view)")
                 if isinstance(cur, Sym):
                     self.env[t.id] = self.binop(BINOPS[type(st.op)], cur, self.need_sym(st.value), st)
                     return
